@@ -207,7 +207,11 @@ def _mutate(kind, obj, op):
         if may_remove(lls, op):
             la = lls[op[1] % len(lls)]
             if kind == "scenario":
-                obj.remove_lanelet(la)
+                if len(op) > 3 and op[3] == "norefs":
+                    # the documented non-default: signs and lights that only this lanelet refers to stay (seed C11-16)
+                    obj.remove_lanelet(la, referenced_elements=False)
+                else:
+                    obj.remove_lanelet(la)
             elif len(op) > 3 and op[3] == "lazy_flush":
                 # the batch idiom: the removal defers the index (rtree=False), a last call - here for an id that is not
                 # in the network any more - rebuilds it
@@ -528,7 +532,8 @@ def g_mutator(rng, kind, obj):
         ms += [["add_from_net", s, rng.randint(1, 3), rng.random() < 0.4],
                ["remove_lanelet", rng.randint(0, 20), False, "lazy_flush"]]
     else:
-        ms += [["obst_tr"] + g_tr(rng)[1:] + [rng.randint(0, 5)]]
+        ms += [["obst_tr"] + g_tr(rng)[1:] + [rng.randint(0, 5)],
+               ["remove_lanelet", rng.randint(0, 20), rng.random() < 0.3, "norefs"]]
     return rng.choice(ms)
 
 
